@@ -54,7 +54,7 @@ impl Scenario for C08 {
         self.sweep_len(tier)
             + match tier {
                 Tier::Quick => 60_000,
-                Tier::Thorough => 1_500_000,
+                Tier::Thorough => 4_000_000,
             }
     }
     fn plan(&self, seed: u64, idx: u64, tier: Tier) -> Plan {
